@@ -17,7 +17,7 @@ class WalkerTimeout(WalkerDied):
 
 
 class Walker:
-    def __init__(self, idx, cwd, fds=(), variant="rel", timeout=90.0):
+    def __init__(self, idx, cwd, fds=(), variant="rel", timeout=60.0):
         self.idx = idx
         self.cwd = cwd
         self.timeout = timeout
